@@ -27,6 +27,7 @@ class Crash(BaseException):
 class VFS:
     def __init__(self):
         self.files = {}
+        self.links = {}        # symbolic links: path -> target path (absolute)
         self.dirs = {ROOT}
         self.clock = 1000
         self.ops = 0
@@ -72,7 +73,10 @@ class VFS:
         return False
 
     def snapshot(self):
-        return {k: (v[0], v[1]) for k, v in self.files.items()}
+        snap = {k: (v[0], v[1]) for k, v in self.files.items()}
+        for k, v in self.links.items():
+            snap[k] = ("link", v)
+        return snap
 
 
 V = None   # the current world (set by install())
@@ -100,6 +104,10 @@ def f_stat(p, *a, **k):
     vp = virt(p)
     if vp is None or V is None:
         return REAL["stat"](p, *a, **k)
+    hops = 0
+    while vp in V.links and hops < 8:
+        vp = V.links[vp]
+        hops += 1
     n = V.stat_calls.get(vp, 0) + 1
     V.stat_calls[vp] = n
     if vp in V.files:
@@ -198,6 +206,10 @@ def f_remove(p, *a, **k):
     if vp is None or V is None:
         return REAL["remove"](p, *a, **k)
     if V.frozen:
+        return None
+    if vp in V.links:
+        if V.tick("remove", vp):
+            del V.links[vp]
         return None
     if vp not in V.files:
         if V.is_dir(vp):
@@ -325,7 +337,18 @@ def f_lstat(p, *a, **k):
     vp = virt(p)
     if vp is None or V is None:
         return REAL["lstat"](p, *a, **k)
+    if vp in V.links:
+        return _stat_result(0o120777, len(V.links[vp]), 1)
     return f_stat(p)
+
+
+def f_readlink(p, *a, **k):
+    vp = virt(p)
+    if vp is None or V is None:
+        return REAL["readlink"](p, *a, **k)
+    if vp in V.links:
+        return V.links[vp]
+    raise OSError(22, "Invalid argument (vfs: not a symlink)", vp)
 
 
 def f_fsync(fd):
@@ -346,7 +369,7 @@ def install(world):
     REAL.update(stat=os.stat, open=builtins.open, ioopen=io.open, listdir=os.listdir, remove=os.remove,
                 unlink=os.unlink, utime=os.utime, touch=pathlib.Path.touch, mkdir=os.mkdir,
                 makedirs=os.makedirs, replace=os.replace, rename=os.rename, fsync=os.fsync,
-                scandir=os.scandir, lstat=os.lstat)
+                scandir=os.scandir, lstat=os.lstat, readlink=os.readlink)
     os.stat = f_stat
     builtins.open = f_open
     io.open = f_open
@@ -361,6 +384,7 @@ def install(world):
     os.rename = f_replace
     os.scandir = f_scandir
     os.lstat = f_lstat
+    os.readlink = f_readlink
     _INSTALLED[0] = True
 
 
@@ -383,4 +407,5 @@ def uninstall():
     os.rename = REAL["rename"]
     os.scandir = REAL["scandir"]
     os.lstat = REAL["lstat"]
+    os.readlink = REAL["readlink"]
     _INSTALLED[0] = False
